@@ -43,13 +43,22 @@ func latin1(r *gen.Rand, n int) string {
 	return string(rs)
 }
 
+// edge strings for Name/Comment: the boundaries of the Latin-1 conversion
+var latin1Edges = []string{"\u0080", "a\u0080b", "\u0080\u0080", "\u007f", "\u0081", "\u00ff", "x\u00ffy", "\u007f\u0080", "plain-ascii"}
+
 func randHeader(r *gen.Rand) impl.Header {
 	h := impl.Header{OS: byte(r.Intn(256))}
 	if r.Bool() {
 		h.Name = latin1(r, r.Pick(1, 5, 30, 511))
+		if r.Chance(1, 3) {
+			h.Name = latin1Edges[r.Intn(len(latin1Edges))]
+		}
 	}
 	if r.Bool() {
 		h.Comment = latin1(r, r.Pick(1, 20, 200, 511))
+		if r.Chance(1, 3) {
+			h.Comment = latin1Edges[r.Intn(len(latin1Edges))]
+		}
 	}
 	if r.Bool() {
 		h.Extra = r.Bytes(r.Pick(0, 1, 10, 300, 65535))
@@ -201,6 +210,9 @@ func (p c06) Run(c *mon.Ctx, i int) {
 					w.Close()
 				}
 				b.Reset()
+				if r.Bool() {
+					w.Reset(&bytes.Buffer{})
+				}
 				w.Reset(&b)
 			}
 			w.SetHeader(h)
@@ -268,7 +280,7 @@ func (p c06) Run(c *mon.Ctx, i int) {
 		case 1:
 			dict = []byte("a short preset dictionary: the quick brown fox")
 		case 2:
-			dict = gen.Make(r, "text", 32768).B
+			dict = gen.Make(r, "text", r.Pick(32768, 32769, 40000, 100000)).B
 		}
 		desc["dict_len"] = len(dict)
 		write := func(api *impl.API) ([]byte, error) {
@@ -283,6 +295,10 @@ func (p c06) Run(c *mon.Ctx, i int) {
 					w.Close()
 				}
 				b.Reset()
+				if r.Bool() {
+					// pooled writers are often Reset twice, onto different destinations
+					w.Reset(&bytes.Buffer{})
+				}
 				w.Reset(&b)
 			}
 			if err := runOps(w, d.B, ops); err != nil {
